@@ -142,8 +142,13 @@ TStrs ==
                            s |-> IF S = {} THEN <<>> ELSE E.strs[First(S)], out |-> IF S = {} THEN <<>> ELSE E.outs[First(S)],
                            count |-> Cardinality(S)]
      IN CASE E.what \in {"path", "path_from"} ->
+               \* four-byte segments over the AML name alphabet [A-Z_][A-Z0-9_]{3}: accepted, encoded, decodable.
+               \* four-byte segments with other characters are outside the property's quantifier: the crate may refuse
+               \* them, and if it accepts them they are still emitted verbatim ("never in altered form").
                LET wf == Sel(E.strs, LAMBDA i : PathWellFormed(E.strs[i]) /\ Len(ParsePath(E.strs[i]).segs) <= 255)
-                   badenc == {i \in wf : E.panics[i] \/ ~PathOk(E.strs[i], E.outs[i])}
+                   alpha == {i \in wf : PathInAlphabet(E.strs[i])}
+                   badenc == {i \in alpha : E.panics[i] \/ ~PathOk(E.strs[i], E.outs[i])}
+                             \cup {i \in wf \ alpha : ~E.panics[i] /\ E.outs[i] # NameEnc(ParsePath(E.strs[i]))}
                    notref == Sel(E.strs, LAMBDA i : ~PathWellFormed(E.strs[i]) /\ ~E.panics[i])
                    toolong == Sel(E.strs, LAMBDA i : PathWellFormed(E.strs[i]) /\ Len(ParsePath(E.strs[i]).segs) > 255 /\ ~E.panics[i])
                IN /\ Judge("C09", badenc = {}, I("C09", "namestring", badenc))
